@@ -8,6 +8,12 @@ CHECKS = {
  "C01": ("exploration", "property-based testing against a sorted-set reference model (proptest, regime-directed generators) + complete small-scope enumeration",
          "Every query of the plain bitvector is compared with an independent sorted-set model on generated bit sequences that are directed at the internal regimes (short/long select superblocks for ones and zeros, partial words/blocks, many superblocks), built through 9 public routes; every bit string up to length 12 (16 thorough) is enumerated with every argument. Held-on-everything-explored, not a proof.",
          "Trusts the reference model (binary search on a sorted position list) and rustc; vectors limited to 140k bits quick / 2M bits thorough; above 20k bits arguments are structural edges + sampled.", "DESIGN.md §3 C01"),
+ "C08": ("exploration", "program-level property-based testing (generated call programs with arbitrary arguments over an object heap) under process-level monitors (std unsafe-precondition checks, signals) with per-case worker isolation; coverage-guided libFuzzer+ASan campaign of the same interpreter in the thorough tier",
+         "Generated programs call every safe entry point of every structure with arbitrary arguments (tail offsets, extreme indexes, arbitrary iterator scripts, arbitrary builder sequences, stale supports, reloads, mapped views at structure starts / outside the file / on truncated files). Panics are legal; the process must survive with every unchecked slice access checked against the slice length by the standard library's precondition checks, under release arithmetic and under overflow checks; mapped views must lie inside the map.",
+         "The monitor sees accesses outside a slice, not logically-wrong accesses inside one; unsafe fns are called only within their contracts; allocation sizes are bounded.", "DESIGN.md §3 C08"),
+ "C20": ("exploration", "stress testing with generated thread/call configurations and a process-wide uniqueness invariant over the whole call history (schedules sampled by the OS, not enumerated)",
+         "Generated bursts (2..64 threads x up to 5000 calls, barrier released, 16 bursts concurrently) call temp_file_name; the invariant - no path ever returned twice in the process, every path contains the caller's name part - is checked over the complete history. This family cannot own the schedule of an unmodified atomic; the bursts were measured to expose a load+store counter in 20/20 rounds.",
+         "Schedules are sampled, not enumerated: a lost update needing a rarer interleaving than the bursts provoke can be missed; replay re-samples schedules.", "DESIGN.md §3 C20"),
  "C09": ("exploration", "property-based testing with extreme-argument generators against the documented out-of-range answers and the reference models, three-type differential, in two arithmetic configurations with per-case process isolation",
          "Every query of the three bitvector types, of huge sparse / run-length vectors, of the wavelet matrix and its core is asked at {0,1,len-1,len,len+1,2len,count+-1,2^63,MAX-1,MAX,...} and must give the documented answer without panicking; nth/nth_back beyond the remainder must exhaust fresh, partly consumed and positioned iterators; constructors must accept exactly the valid widths. Run with overflow checks on (a wrapped addition is a panic) and with release arithmetic + std unsafe-precondition checks (a wrapped addition is a wrong answer or an abort), each case in a worker process.",
          "Trusts the reference models; get() is not called out of range (documented as may-panic); allocation-sizing arguments are kept small.", "DESIGN.md §3 C09"),
